@@ -22,7 +22,7 @@ ASSUMPTIONS = [
 NSHARDS = {"quick": 16, "thorough": 16}
 N_CASES = {"quick": 260, "thorough": 50000}
 N_SIM = {"quick": 12, "thorough": 1500}
-REQUIRE = {"kill_pool_level": 1000, "ticks_with_pool_level_victims": 400, "ticks_with_multiple_victims": 50,
+REQUIRE = {"kill_pool_level": 1000, "ticks_with_more_than_8_pool_level_kills": 10, "ticks_with_pool_level_victims": 400, "ticks_with_multiple_victims": 50,
            "ticks_usage_order_differs_from_score_order": 50, "cases_with_ties": 20, "sim_kills_pool_level": 20}
 
 
@@ -99,6 +99,9 @@ def long_case(rng, waves):
 
 def cases(tier, seed, shard, nshards):
     rng = rng_for(ID, seed, shard)
+    for _m in range(2 if tier == "quick" else 40):
+        # many containers start in one tick and overload one overcommitted pool: 9 .. 60 pool-level kills in one tick
+        yield _exec.mass_start_case(rng)
     if tier == "thorough" or shard < 3:
         yield long_case(rng, 600 if tier == "quick" else 1500)
     for i in range(N_CASES[tier]):
